@@ -200,24 +200,27 @@ func runC03(r *kit.Run) {
 							continue // io.EOF from a generator is the natural end of that worker's input, not a failure
 						}
 						if after, exceeded := c03Run(r, cell, c, rng, false); exceeded {
-							// The first-failure stamp is taken inside the user function,
-							// a moment before the library can react; if the failing
-							// goroutine's thread is descheduled in that moment the other
-							// workers run on. A genuine "abort does not stop" is
-							// systematic: confirm by re-executing the same case.
+							// "bounded by the number of workers rather than the rest of the
+							// input being consumed": the bound was exceeded once. The time
+							// between the failing call's return stamp and the moment the
+							// abort takes effect includes whatever the scheduler does to the
+							// failing goroutine's thread (on a loaded machine: milliseconds),
+							// so one exceedance is noise. A genuine "abort does not stop" is
+							// systematic: report it when the rest of the input is consumed
+							// (>= 90% of what was left) here and in every one of three
+							// re-executions of the same case.
+							r.Count("abort_bound_exceeded(noise unless confirmed)", 1)
 							again := 0
-							for k := 0; k < 3; k++ {
-								if _, ex := c03Run(r, cell, c, r.Rng("cell", cell), false); ex {
-									again++
+							if after.consumedRest() {
+								for k := 0; k < 3; k++ {
+									if a2, ex := c03Run(r, cell, c, r.Rng("cell", cell), true); ex && a2.consumedRest() {
+										again++
+									}
 								}
 							}
-							if again >= 1 {
-								{
-									r.Violation("C03/"+c.Construct+"/abort-does-not-stop", cell, c,
-										fmt.Sprintf("%d items were started after the first failure had returned (bound %d, %d items in total); confirmed in %d of 3 re-executions", after, c03Bound(c), c.N, again), nil)
-								}
-							} else {
-								r.Count("abort_bound_exceeded_once_not_confirmed", 1)
+							if again == 3 {
+								r.Violation("C03/"+c.Construct+"/abort-does-not-stop", cell, c,
+									fmt.Sprintf("%d of the %d items that were left when the first failure returned were started afterwards (bound for a working abort: %d), in this and in 3 of 3 re-executions", after.after, after.remaining, c03Bound(c)), nil)
 							}
 						}
 					}
@@ -230,7 +233,11 @@ func runC03(r *kit.Run) {
 // c03Run executes one cell. It returns the number of items started after
 // the first failure returned and whether that exceeds the bound (the
 // caller confirms an exceedance by re-execution before reporting it).
-func c03Run(r *kit.Run, idx int64, c c03Case, rng *rand.Rand, quiet bool) (afterFailure int, exceeded bool) {
+type c03After struct{ after, remaining int }
+
+func (a c03After) consumedRest() bool { return a.remaining > 0 && a.after*10 >= a.remaining*9 }
+
+func c03Run(r *kit.Run, idx int64, c c03Case, rng *rand.Rand, quiet bool) (afterFailure c03After, exceeded bool) {
 	speed := kit.RandSpeed(rng)
 	c.Speed = speed.String()
 	seed := rng.Uint64()
@@ -250,38 +257,48 @@ func c03Run(r *kit.Run, idx int64, c c03Case, rng *rand.Rand, quiet bool) (after
 		injectedBases = append(injectedBases, base)
 		failures[p] = c03MakeFailure(c.Kind, p, base)
 	}
-	var mu sync.Mutex
-	var invs []c03Inv
+	// invocation records are written lock-free (one slot per item id): a
+	// monitor mutex taken between the return stamp and the actual return
+	// would delay the failing goroutine under contention and make other
+	// workers look as if they started "after the failure returned"
+	slots := make([]c03Inv, c.N+2)
+	counts := make([]atomic.Int32, c.N+2)
 	var firstFailRet atomic.Int64
 	// user is the processing function body for item id (1-based)
 	user := func(id int) (err error) {
 		g := gid()
-		call := kit.Stamp()
 		f, isFail := failures[id-1]
-		rec := func() {
-			ret := kit.Stamp()
-			mu.Lock()
-			invs = append(invs, c03Inv{id: id, g: g, call: call, ret: ret, failed: isFail})
-			mu.Unlock()
-			if isFail && c.Kind != "skip" {
-				firstFailRet.CompareAndSwap(0, ret)
-			}
-		}
+		call := kit.Stamp()
 		speed.Pace(id, c.N, seed+uint64(id))
+		if !isFail && !continues && firstFailRet.Load() != 0 {
+			// an item that starts after a failure takes a realistic amount of
+			// time: with instantaneous items the other workers get through
+			// hundreds of them in the microseconds any abort needs to take
+			// effect, and "bounded by the number of workers" would be a
+			// statement about throughput, not about the abort
+			kit.Yields(200)
+			kit.Speed(kit.SlowFirst).Pace(0, 1, 0)
+		}
 		if isFail && c.Late && id-1 == c.Pos[len(c.Pos)-1] {
 			for k := 0; k < 20000 && firstFailRet.Load() == 0; k++ {
 				runtime.Gosched()
 			}
 			kit.Yields(300)
 		}
+		first := id >= 0 && id < len(counts) && counts[id].Add(1) == 1
+		ret := kit.Stamp() // the last thing before returning
+		if first {
+			slots[id] = c03Inv{id: id, g: g, call: call, ret: ret, failed: isFail}
+		}
 		if isFail {
-			rec()
+			if c.Kind != "skip" {
+				firstFailRet.CompareAndSwap(0, ret)
+			}
 			if f.panicV != nil {
 				panic(f.panicV)
 			}
 			return f.ret
 		}
-		rec()
 		return nil
 	}
 
@@ -411,7 +428,7 @@ func c03Run(r *kit.Run, idx int64, c c03Case, rng *rand.Rand, quiet bool) (after
 		if quiet {
 			return
 		}
-		r.Violation("C03/"+c.Construct+"/"+kind, idx, c, detail, map[string]any{"result": fmt.Sprint(result), "invocations": len(invs)})
+		r.Violation("C03/"+c.Construct+"/"+kind, idx, c, detail, map[string]any{"result": fmt.Sprint(result)})
 	}
 	if p := escaped.Load(); p != nil {
 		viol("escaped-panic", "a panic escaped the worker group: "+p.(string))
@@ -421,15 +438,17 @@ func c03Run(r *kit.Run, idx int64, c c03Case, rng *rand.Rand, quiet bool) (after
 		r.Count("unasserted_cells(ErrCurrentOpAbort)", 1)
 		return
 	}
-	mu.Lock()
-	defer mu.Unlock()
 	// which failures actually happened
 	var happened []int
+	var invs []c03Inv
 	invCount := map[int]int{}
-	for _, iv := range invs {
-		invCount[iv.id]++
-		if iv.failed {
-			happened = append(happened, iv.id-1)
+	for id := range slots {
+		if n := int(counts[id].Load()); n > 0 {
+			invCount[id] = n
+			invs = append(invs, slots[id])
+			if slots[id].failed {
+				happened = append(happened, id-1)
+			}
 		}
 	}
 	for id, n := range invCount {
@@ -545,7 +564,13 @@ func c03Run(r *kit.Run, idx int64, c c03Case, rng *rand.Rand, quiet bool) (after
 			bound = 8*c.W + 16
 		}
 		if after > bound {
-			return after, true
+			before := 0
+			for _, iv := range invs {
+				if iv.call <= ff {
+					before++
+				}
+			}
+			return c03After{after: after, remaining: c.N - before}, true
 		}
 		r.Max("max:started_after_failure", int64(after))
 	}
@@ -555,7 +580,7 @@ func c03Run(r *kit.Run, idx int64, c c03Case, rng *rand.Rand, quiet bool) (after
 	if r.WantSample() && len(c.Pos) > 1 {
 		r.Sample(c)
 	}
-	return 0, false
+	return c03After{}, false
 }
 
 func onlyContextErrors(err error) bool {
